@@ -8,5 +8,53 @@ import os, sys
 sys.path.insert(0, os.path.dirname(os.path.abspath(__file__)))
 from anzcommon import *
 
+
+
+def variants(text):
+    """layout-only variants that treat the occurrences of a bracket DIFFERENTLY: a blank after the k-th '[' only (for every k),
+    after all of them, a comment inside the k-th pair, and a line break after every ';'"""
+    pos = [i for i, ch in enumerate(text) if ch == "["]
+    out = []
+    for k in pos:
+        out.append(text[:k + 1] + " " + text[k + 1:])
+        j = text.index("]", k)
+        out.append(text[:j] + " /* w */ " + text[j:])
+    if pos:
+        out.append(text.replace("[", "[ ").replace("]", " ]"))
+    out.append(text.replace("; ", ";\n"))
+    return out[:12]
+
+
+def relayout_typed(c):
+    """C17 on typed declarations: the declaration / signature / conversion programs of TypeRules.tla (C08, C09) analysed under
+    layout-only variants that change ONE type spelling and leave its twins alone; symbols, diagnostics and graph must not change."""
+    r = run_tlc("typerules", "TypeRules", "TypeRules.cfg", workers=1, timeout=900, xss="512m", cache_key="tr", keep_tags={"DECL", "SIG", "LISTING", "ROW", "ARITH"})
+    if not r.ok:
+        c.tool_error(f"TypeRules failed: {r.error_text} {r.raw_tail[-600:]}")
+    texts = sorted({x["text"] for tag in ("DECL", "SIG", "ROW") for x in r.tagged.get(tag, []) if "[" in x["text"] and "\"" not in x["text"]})
+    if c.quick:
+        rows = [t for t in texts if " x = " in t or "x; x =" in t]
+        keep = set(rows[::7])
+        texts = [t for t in texts if t not in set(rows) or t in keep]
+    ip = os.path.join(c.work, "relayout.ndjson"); op = os.path.join(c.work, "relayout_out.json")
+    with open(ip, "w") as fh:
+        for t in texts:
+            fh.write(json.dumps({"text": t, "variants": variants(t)}) + "\n")
+    p = run_harness(["relayout-cases", ip, op], timeout=3000)
+    if p.returncode != 0:
+        c.tool_error("relayout-cases failed: " + p.stderr[-1500:])
+    d = json.load(open(op))
+    seen = set()
+    for f in d["failures"]:
+        key = (f["differs_in"], f["text"].split(";")[0][:12])
+        if key in seen:
+            continue
+        seen.add(key)
+        c.report({"kind": "layout_typed", "what": f"a layout-only change of one type spelling changes the {f['differs_in']} of the analysis: {f['text']!r} vs {f['variant']!r}",
+                  "site": "", "cause": "", "msg": "", "text": f["text"], "detail": f})
+    c.cov["typed_relayout"] = {"texts": d["texts"], "variants_analysed": d["variants"]}
+    c.cov["evaluations"] = c.cov.get("evaluations", 0) + d["variants"]
+
+
 if __name__ == "__main__":
-    main_guard(lambda: main_for("C17", "exploration"))
+    main_guard(lambda: main_for("C17", "exploration", extra=relayout_typed))
